@@ -31,6 +31,7 @@ CFG = {
     "lean_files": ["SuccinctlyVerif/Props/C27.lean", "SuccinctlyVerif/Proof/JqCursor.lean",
                    "SuccinctlyVerif/Model/JqOutput.lean"],
     "generated": [],
+    "required_theorems": ["SV.Props.C27.stream_eq_materialise", "SV.Props.C27.stream_at_path"],
     "canon": _canon,
     "nontrivial": _nontrivial,
     "rule": "request = (tool, flags, program, 1-12 documents) run on 2-3 routes; distinct request lines with non-empty output",
